@@ -3,6 +3,8 @@
 // concurrent duplicate requests plus bystanders at the lock / storage / handler boundaries,
 // with injected storage and lock faults.  family.go adds the request / handler / configuration family (methods,
 // response shapes, handler failures incl. panic, Config fields, lifetime x clock, corrupted records, reused ctx).
+// replay-perkey-* scenarios: answers differ by key in which headers they carry (x KeepResponseHeaders filter): nothing of one
+// key's record may show in another key's replay.
 // keepalive-* scenarios: connections = threads owning one RequestCtx each and serving several requests on it.
 package main
 
@@ -818,6 +820,7 @@ func main() {
 		Coverage: schedx.Coverage(r, scenarios, map[string]any{
 			"family_rule":     "fam-seq / fam-conc (family.go): members = ball of the stated radius around the base over the dimensions cfg x life x adv x method x shape x behave x store x variant x up x ctx (values in the scenario params); fam-seq serves nine requests one after the other (first, duplicate varying path/body/method, safe method with the key, key in the other header name, other key, invalid key, clock advance, duplicate with an optional corrupted/failing lookup, duplicate, duplicate of the other key), fam-conc serves the first two in flight together under all schedules; a sequential reference model (recorded answer per key with its time, lifetime in whole storage seconds) judges every request, three-valued where nothing is specified (counters unspecified_*); violations are minimised by resetting dimensions to base",
 			"connection_rule": "keepalive-* scenarios: every connection is one thread owning one fasthttp.RequestCtx and serving its requests one after the other on it (a keep-alive connection: a duplicate of key A, then a follow-up request: safe method or POST with another key, POST without key, POST / GET with key A) concurrently with 1-2 other connections' duplicates of A, with a failing or succeeding first execution, injected or built-in storage (quick: a diagonal, thorough: the product); in EVERY scenario a connection's RequestCtx is recycled after its last request (a foreign request with another key is parsed into it), so nothing kept for the requests still in flight may alias an answered request's buffers",
+			"perkey_rule":     "replay-perkey-* scenarios: the handler's answer depends on the key (a header only key A's answer carries, another only key B's, different values of a common header, status 201/202, cookie / none, default / JSON content type) x KeepResponseHeaders unset / one name / several names x recording order A,B / B,A (sequentially, or the second key first executed while a replay is in flight) x injected / built-in storage x fresh / shared RequestCtx; the replays in flight together and two later ones must each equal the recorded execution of THEIR key in status, body and every kept header name and value (all header lines except framing when the filter is unset)",
 			"rule":            "every scenario is a closed driver (fresh app per execution, 2-4 request threads); ALL interleavings at the scheduling points (MemoryLock and countedLock mutex operations, storage mutex operations, injected storage Get/Set/Delete, handler entry/work seams, thread spawn/join) are enumerated depth-first by prefix replay under the stated preemption / fault bounds (-1 = unbounded with happens-before state pruning); the oracle runs on every complete execution",
 		}),
 		Assumptions: []string{
